@@ -42,6 +42,17 @@ ManualNameClauses ==
     IF S.via # "manual" \/ ~(WholePct(S.probs.rb) /\ WholePct(S.probs.lb) /\ WholePct(S.probs.tb)) THEN {}
     ELSE IF S.created = <<ManualName>> THEN {} ELSE {"C17.ManualName expected " \o ManualName}
 
+\* Beyond the listed properties (prefix X., counted, never a verdict): the comment at the head of a
+\* generated file draws the board it was generated from - one row per board row, one tile
+\* [reward|arrow(X or blank)] per column, the reward printed as int(reward) (fractions are cut off).
+DepictionClauses ==
+    LET d == S.depiction
+        cut == [i \in DOMAIN S.board.rewards |->
+                   [j \in DOMAIN S.board.rewards[i] |-> S.board.rewards[i][j] \div S.board.rden]]
+    IN  (IF d.moves = S.board.moves THEN {} ELSE {"X.Depiction arrows"})
+        \cup (IF d.loose = S.board.loose THEN {} ELSE {"X.Depiction loose tiles"})
+        \cup (IF d.rewards = cut THEN {} ELSE {"X.Depiction rewards"})
+
 Loaded == S.loaderr = "" /\ S.keys = <<"game_a", "game_b", "game_c">>
 
 CheckLoad ==
@@ -49,6 +60,7 @@ CheckLoad ==
     /\ fails' = fails \cup (IF S.loaderr # "" THEN {"C11.Loads " \o S.loaderr}
                             ELSE IF S.keys # <<"game_a", "game_b", "game_c">> THEN {"C11.Loads keys"} ELSE {})
                       \cup ManualNameClauses
+                      \cup (IF S.loaderr = "" /\ S.keys # <<>> THEN DepictionClauses ELSE {})
     /\ step' = IF Loaded /\ ~S.loadonly THEN 1 ELSE 4
     /\ UNCHANGED tid
 
@@ -95,7 +107,10 @@ Verdict ==
     /\ step = 4
     /\ PrintT(ToJson([tid |-> S.tid, fails |-> fails,
                       notes |-> {"tiles=" \o ToString(S.board.L * S.board.W)}
-                                \cup (IF S.board.W = 1 THEN {"C08.width1"} ELSE {})]))
+                                \cup (IF S.board.W = 1 THEN {"C08.width1"} ELSE {})
+                                \cup (IF S.loaderr = "" /\ S.keys # <<>> THEN {"X.Depiction checked"} ELSE {})
+                                \cup (IF MaxOfMatrix(S.board.rewards) \div S.board.rden >= 10
+                                      THEN {"X.Depiction multi-digit reward"} ELSE {})]))
     /\ step' = 5 /\ UNCHANGED <<tid, fails>>
 
 Next == CheckLoad \/ CheckGame \/ Verdict
